@@ -4,6 +4,7 @@ import (
 	"fmt"
 	"os"
 	"path/filepath"
+	"strconv"
 	"strings"
 )
 
@@ -793,7 +794,25 @@ func (st *c05State) full(region string) bool {
 // collectExtras compares the host-stream programs line by line and the witnesses as a whole.
 func (st *c05State) collectExtras(dump string) (synthetic []*c05Unit) {
 	sm := st.sm
+	var hcases []string
+	defer func() {
+		if len(hcases) == 0 {
+			return
+		}
+		name := fmt.Sprintf("cases_c05h_%d.v", st.nfiles)
+		st.nfiles++
+		body := "From Verif Require Import Lib.Str Disp.Host Disp.HostCases.\nFrom Coq Require Import NArith.\n" +
+			"Definition cases : list hcase := [\n" + strings.Join(hcases, ";\n") + "\n].\n" +
+			"Definition MY := Eval vm_compute in host_mis_y cases.\nPrint MY.\nDefinition MG := Eval vm_compute in host_mis_g cases.\nPrint MG.\n"
+		if err := os.WriteFile(filepath.Join(st.out, name), []byte(body), 0o644); err == nil {
+			sm.CasesFiles = append(sm.CasesFiles, name)
+		}
+	}()
 	for _, e := range st.extras {
+		if e.hx != nil {
+			hcases = append(hcases, st.collectHostX(e, dump)...)
+			continue
+		}
 		if e.expect != "" {
 			// witness of a finding: attributed only if yaegi still produces the recorded wrong output
 			sm.Evaluations++
@@ -883,4 +902,86 @@ func (st *c05State) collectExtras(dump string) (synthetic []*c05Unit) {
 		}
 	}
 	return synthetic
+}
+
+// collectHostX compares the probes of one program of the probed-interfaces stream and renders them for Coq.
+func (st *c05State) collectHostX(e *c05Extra, dump string) (hcases []string) {
+	sm := st.sm
+	lines := func(out string) map[string]string {
+		m := map[string]string{}
+		cur := ""
+		for _, l := range strings.Split(out, "\n") {
+			if strings.HasPrefix(l, "h") {
+				if sp := strings.IndexByte(l, ' '); sp > 1 {
+					if _, err := strconv.Atoi(l[1:sp]); err == nil {
+						cur = l[:sp]
+						m[cur] = l[sp+1:]
+						continue
+					}
+				}
+			}
+			if cur != "" && l != "" {
+				m[cur] += "\n" + l
+			}
+		}
+		return m
+	}
+	yl, gl := lines(e.y.Stdout), lines(e.refOut)
+	sm.count("hostx programs:" + e.hx.kind)
+	bad := false
+	for i, p := range e.hx.probes {
+		id := e.id + i + 1
+		yo, yok := yl[p.Label]
+		gout, gok := gl[p.Label]
+		sm.Evaluations++
+		sm.RefComparisons++
+		sm.ImplComparisons++
+		sm.count("hostx:" + p.Consumer.Name)
+		if p.Region != "" {
+			sm.count("hostx:" + p.Region)
+		}
+		st.distinct.add("hostx", e.hx.kind, p.Desc, strings.Join(p.ImplY, ","), strings.Join(p.ImplG, ","), p.Code)
+		in := map[string]any{"level": "hostx", "kind": e.hx.kind, "probe": p.Label, "consumer": p.Consumer.Name, "class": p.Consumer.Cls,
+			"methods (yaegi)": p.ImplY, "method set (Go)": p.ImplG, "expr": p.Code}
+		if len(sm.CaseIndex) < c05MaxIndex {
+			sm.CaseIndex[fmt.Sprint(id)] = in
+		}
+		obs := func(out string, ok bool) string {
+			if !ok {
+				return "missing"
+			}
+			if out == "PANIC" {
+				return "panic"
+			}
+			return hxDecode(p.Consumer, out)
+		}
+		oy, og := obs(yo, yok), obs(gout, gok)
+		if e.y.End != "ok" && !yok {
+			oy = "aborted"
+		}
+		if !p.NoCoq {
+			hcases = append(hcases, fmt.Sprintf("(%s, %s, %s, %s, %s, %s, %s)", coqN(id), coqStr(p.Consumer.Name), coqStr(p.Consumer.Cls),
+				coqStrList(p.ImplY), coqStrList(p.ImplG), coqStr(oy), coqStr(og)))
+		}
+		if yo != gout || yok != gok {
+			bad = true
+			full := in
+			if st.full(p.Region) {
+				full = map[string]any{"source": e.src}
+				for k, v := range in {
+					full[k] = v
+				}
+			}
+			sm.RefMismatches = append(sm.RefMismatches, refMismatch{ID: id, Region: p.Region, Input: full, Impl: yo + " [" + oy + "]", Ref: gout + " [" + og + "]"})
+		}
+	}
+	if bad && dump != "" {
+		os.MkdirAll(dump, 0o755)
+		os.WriteFile(filepath.Join(dump, e.name+".go"), []byte(e.src), 0o644)
+		os.WriteFile(filepath.Join(dump, e.name+".out"), []byte("--- yaegi "+e.y.End+"\n"+e.y.Stdout+"--- go "+e.refEnd+"\n"+e.refOut), 0o644)
+	}
+	if e.id == 800000000 {
+		sm.Samples = append(sm.Samples, map[string]any{"program": e.name, "kind": e.hx.kind, "source": e.src})
+	}
+	return hcases
 }
